@@ -172,12 +172,14 @@ class C16(E1Check):
     def post_explore(self, res):
         """Ladder verdicts: the profile and the appended byte count must not depend on the database size."""
         base = {}
-        for (auto, n), (prof, nsteps, appended) in sorted(self.ladder_result.items()):
-            ref = base.setdefault(auto, (prof, appended))
-            if (prof, appended) != ref:
-                v = viol("ladder", f"C16|ladder|io-profile-depends-on-size|auto={auto}", observed=(n, prof, appended), expected=ref, kind="ladder")
+        for (auto, n, early), (prof, nsteps, appended, is_prefix) in sorted(self.ladder_result.items()):
+            ref = base.setdefault(auto, (prof, appended, True))
+            if (prof, appended, is_prefix) != ref:
+                what = "old-bytes-not-a-prefix" if not is_prefix else "io-profile-depends-on-size"
+                v = viol("ladder", f"C16|ladder|{what}|auto={auto}|after-early-read={early}", observed=(n, prof, appended, is_prefix), expected=ref, kind="ladder")
                 v.update(property="C16", config="ladder", cfg={}, history=[])
-                res.violations.append(v)
+                if res.viol_count[v["signature"]] == 0:
+                    res.violations.append(v)
                 res.viol_count[v["signature"]] += 1
 
     def ladder(self, log):
@@ -193,21 +195,28 @@ class C16(E1Check):
             for n in sizes:
                 path = os.path.join(common.db_dir(), "ladder.csv")
                 row = "2021-06-01T12:00:00,m,_tag_a,x,_field_v,1.0\r\n"
-                with open(path, "w", newline="") as f:
-                    f.write(row * n)
-                db = TinyFlux(path, auto_index=auto)
-                plan = SEAM.begin(Plan(watch=path))
-                db.insert(self.alpha.mk_point("P5"))
-                SEAM.end()
-                db.close()
-                size_after = os.path.getsize(path)
-                res[(auto, n)] = (profile(plan.steps), len(plan.steps), size_after - n * len(row))
+                from tinyflux import TagQuery
+
+                for early_read in (False, True):
+                    with open(path, "w", newline="") as f:
+                        f.write(row * n)
+                    before = open(path, "rb").read()
+                    db = TinyFlux(path, auto_index=auto)
+                    if early_read and n:
+                        db.get(TagQuery().a == "x")  # stops at the first row: the file position is left mid-file
+                    plan = SEAM.begin(Plan(watch=path))
+                    db.insert(self.alpha.mk_point("P5"))
+                    SEAM.end()
+                    db.close()
+                    after = open(path, "rb").read()
+                    res[(auto, n, early_read)] = (profile(plan.steps), len(plan.steps), len(after) - len(before), after.startswith(before))
                 os.unlink(path)
         SEAM.uninstall()
         return res
 
     def coverage_extra(self, res):
-        return {"ladder": {f"auto={a},rows={n}": {"steps": v[1], "appended_bytes": v[2]} for (a, n), v in self.ladder_result.items()}}
+        return {"ladder": {f"auto={a},rows={n},after_early_read={e}": {"steps": v[1], "appended_bytes": v[2], "old_bytes_prefix": v[3]}
+                           for (a, n, e), v in self.ladder_result.items()}}
 
     def recheck(self, rec):
         if rec.get("kind") == "ladder":
